@@ -325,3 +325,53 @@ pub fn summarise(results: &[JobResult], functions: &[&str], bounds: &str, cfg_no
     ]);
     Summary { json, violations, mismatches, engine_errors, unknowns, paths }
 }
+
+// ------------------------------------------------------------------ cases: the common shape of a check
+/// One check case: symbolic input generator, the same real-code run at both backends, and the oracle.
+#[derive(Clone)]
+pub struct Case {
+    pub name: String,
+    pub gen: Arc<dyn Fn() -> PV + Send + Sync>,
+    pub sym: fn(&PV) -> PV,
+    pub nat: fn(&PV) -> PV,
+    pub oracle: Arc<dyn Fn(&PV, &PV) -> T + Send + Sync>,
+    pub obligations: u64,
+}
+
+#[macro_export]
+macro_rules! case {
+    ($name:expr, $gen:expr, $op:ident, $oracle:expr, $obl:expr) => {
+        $crate::runner::Case {
+            name: $name,
+            gen: std::sync::Arc::new($gen),
+            sym: $crate::sym::$op,
+            nat: $crate::nat::$op,
+            oracle: std::sync::Arc::new($oracle),
+            obligations: $obl,
+        }
+    };
+}
+
+pub fn case_job(case: Case, cfg: Cfg, budget: Duration, mandatory: bool) -> Job {
+    let compare = !cfg.adversarial();
+    Job {
+        name: case.name.clone(),
+        cfg,
+        budget,
+        mandatory,
+        body: Arc::new(move || {
+            let inputs = (case.gen)();
+            let sym = case.sym;
+            let nat = case.nat;
+            let oracle = case.oracle.clone();
+            decide(Decide {
+                inputs: &inputs,
+                run_sym: &|| sym(&inputs),
+                run_nat: &|i| nat(i),
+                oracle: &|i, o| oracle(i, o),
+                obligations: case.obligations,
+                compare_native: compare,
+            })
+        }),
+    }
+}
